@@ -40,6 +40,11 @@ class H2Peer:
         self.max_open = 0
         self.auto_ack = True
         self.unacked = []  # (length, stream id) of received DATA not yet acknowledged (lazy receivers)
+        # manual flow control: stream windows are reopened per stream, the connection window only when at least
+        # conn_threshold bytes are outstanding (what real receivers do: nghttp2, hyper-h2 update at half the window)
+        self.manual_fc = False
+        self.conn_debt = 0
+        self.conn_threshold = 32768
 
     def start(self):
         self.conn.initiate_connection()
@@ -61,12 +66,35 @@ class H2Peer:
 
     def ack_all(self):
         """acknowledge everything received so far (emits WINDOW_UPDATE frames)"""
+        if self.manual_fc:
+            return self.ack_streams()
         for n, sid in self.unacked:
             try:
                 self.conn.acknowledge_received_data(n, sid)
             except Exception:
                 pass
         self.unacked = []
+        self.flush()
+
+    def ack_streams(self):
+        """manual flow control: WINDOW_UPDATE for every stream that received data, connection-level only above the threshold"""
+        per = collections.OrderedDict()
+        for n, sid in self.unacked:
+            per[sid] = per.get(sid, 0) + n
+            self.conn_debt += n
+        self.unacked = []
+        for sid, n in per.items():
+            try:
+                if n:
+                    self.conn.increment_flow_control_window(n, stream_id=sid)
+            except Exception:
+                pass  # stream already closed: nothing to reopen
+        if self.conn_debt >= self.conn_threshold:
+            try:
+                self.conn.increment_flow_control_window(self.conn_debt)
+                self.conn_debt = 0
+            except Exception:
+                pass
         self.flush()
 
     def rec(self, sid) -> StreamRec:
@@ -103,7 +131,7 @@ class H2Peer:
         elif isinstance(ev, h2.events.DataReceived):
             self.rec(sid).data += ev.data
             self.order.append((sid, "data"))
-            if self.auto_ack:
+            if self.auto_ack and not self.manual_fc:
                 self.conn.acknowledge_received_data(ev.flow_controlled_length, sid)
             else:
                 self.unacked.append((ev.flow_controlled_length, sid))
